@@ -91,6 +91,8 @@ def wf_tree(b):
 def expected_log(root, units):
     """units: [(absolute, common, [mnemonics], query)] -> (list of 'id e|q' invocations, final status)"""
     ctx = root; log = []
+    if any(len(m.lstrip(b"*")) > 12 for u in units for m in u[2]):
+        return None, None                          # not a well-formed message (mnemonic too long): outside the property
     for i, (ab, com, ms, q) in enumerate(units):
         start = root if (i == 0 or ab or com) else ctx
         des = designations(start, start, ms)
